@@ -49,6 +49,14 @@ def run(chk: core.Check, tier: str, seed: int) -> None:
     )
     res = core.require_ok(core.run_tlc("MC_Slice", cfg, name="mc_slice", heap="12g", timeout=3000), "MC_Slice")
     chk.add_tlc("MC_Slice: T4a termination, T4b closed form/range/monotone, T4c clamping", res)
+    # unbounded: the inductive invariant of the same procedure (SliceInd.tla) discharged by Apalache for ALL lengths and
+    # ALL start / end / step values - every emitted index is a position of the array, emissions strictly monotone
+    for label, args in (("base: Init => IndInv", ["--init=Init", "--inv=IndInv", "--length=0"]),
+                        ("step: IndInv /\\ Next => IndInv'", ["--init=IndInit", "--inv=IndInv", "--length=1"])):
+        ok, tail, wall = core.run_apalache("SliceInd", args, name="apa_slice_" + label[:4])
+        if not ok:
+            raise core.MachineryError(f"Apalache does not confirm SliceInd {label}:\n{tail}")
+        chk.notes[f"apalache SliceInd {label}"] = f"NoError in {wall:.0f}s (unbounded integers)"
     gen = []
     for line in res.out.splitlines():
         line = line.strip()
